@@ -143,6 +143,18 @@ def generate(rng, tier):
             cases.append(Case("i%d" % n, lines, {"kind": kind, "nfiles": len(files), "depth": depth, "tail_err": tail_err, "use_sp": use_sp,
                                                   "unbalanced": unbalanced}))
             n += 1
+    nsl_early = schema_lines([Opt("x", "int", 0, 0), Opt("y", "int", 0, 0), Opt("z", "int", 0, 0), Opt("l", "int", LIST, None),
+                              Opt("sec", "sec", 0, None, "-", [Opt("w", "int", 0, 0), Opt("wl", "int", LIST, [b"1", b"2"]), Opt("include", "func", 0, None, "I")]),
+                              Opt("include", "func", 0, None, "I")])
+    # an include target that opens but cannot be read is a reported parse error, whatever follows it - another include, a
+    # section with a list default, the end of the text (only the return code is compared: the model has no unreadable files)
+    for tail in (b'include("good.conf")\nx = 2\n', b"x = 2\n", b'sec { w = 1 }\ninclude("good.conf")\n', b"", b'include("good.conf")\ninclude("good.conf")\n'):
+        for head in (b"", b"x = 1\n", b'include("good.conf")\n'):
+            cdir = "%s/unr%d" % (root, n)
+            lines = nsl_early + ["CWD " + hx(cdir), "FILE %s unreadable ." % hx("bad.conf"), "FILE %s reg %s" % (hx("good.conf"), hx(b"z = 3\nl = {4}\n")),
+                                 "X 0 0", "PB 0 " + hx(head + b'include("bad.conf")\n' + tail), "D 0", "PB 0 " + hx(b"y = 9\n"), "D 0"]
+            cases.append(Case("i%d" % n, lines, {"kind": "unreadable", "nfiles": 2, "depth": 0, "tail_err": False, "use_sp": False, "unbalanced": False}))
+            n += 1
     # include() in a parse that a callback of another, still running parse started: context 1 must end up as the model says
     # the same text leaves it when parsed on its own (MPB: the model runs the nested text by itself), and the outer parse
     # goes on as if nothing had happened - at top level, inside a section, and from inside an included file
@@ -172,6 +184,8 @@ def generate(rng, tier):
 
 
 def project(lines, case):
+    if case.meta.get("kind") == "unreadable":
+        return [l for l in lines if l.startswith(("R ", "H "))]
     out = []
     for l in lines:
         if l.startswith("T nest"):
@@ -202,6 +216,13 @@ def oracle(case, il, ctx):
     hz = [l for l in il if l.startswith("H ")]
     if hz:
         return "hazard: " + hz[0]
+    if case.meta.get("kind") == "unreadable":
+        rcs = [l for l in il if l.startswith("R ")]
+        if len(rcs) < 3 or rcs[1] != "R 1":
+            return "a parse that includes a file which cannot be read did not fail: " + " ".join(rcs[:2])
+        if not any(l.startswith("G ") for l in il):
+            return "the unreadable include was not reported"
+        return None if rcs[2] == "R 0" else "the context was not usable after the failed include"
     if case.meta.get("kind") == "nested":
         for l in il:
             if l.startswith("I ") and l != "I 0 0":
